@@ -21,7 +21,7 @@ theorem afterLoop_end (t : Task) (r : Resp) (hd : (afterLoop t r).1.phase = .don
   split
   · rename_i hg
     cases he : r.exc
-    · simp only [he, Bool.false_or, Bool.not_eq_true', Bool.not_eq_eq_eq_not, Bool.not_true] at hg
+    · simp only [he, Bool.false_or, Bool.not_eq_eq_eq_not, Bool.not_true] at hg
       exact Or.inr (Or.inl ⟨r.code, r.body, by simp [finish, he], hg⟩)
     · exact Or.inr (Or.inr rfl)
   · rename_i hg
@@ -30,13 +30,13 @@ theorem afterLoop_end (t : Task) (r : Resp) (hd : (afterLoop t r).1.phase = .don
     · exact Or.inl rfl
     · rename_i hl; simp [hl] at hd
 
-theorem atAwait_end (val : Nat) (t : Task) (plan : Plan) (hw : t.phase = .waitTrig)
+theorem atAwait_end (val : Nat) (t : Task) (plan : Plan)
     (htg : ∀ r, t.trig = some (some r) → r.exc = false)
     (hd : (atAwait val t plan).1.phase = .done) :
     EndKind (atAwait val t plan).1 (atAwait val t plan).2 (∃ code, plan = .imm code true) := by
   unfold atAwait at hd ⊢
   split
-  · rename_i htr; simp [htr, hw] at hd
+  · rename_i htr; simp [htr] at hd
   · rename_i r htr
     simp only [htr] at hd
     exact (afterLoop_end _ r hd).mono (fun a ha => ha) (fun he => by rw [htg r htr] at he; cases he)
@@ -69,7 +69,7 @@ theorem stepTask_loop_end (val : Nat) (t : Task) (plan : Plan) (acc : Bool)
   simp only [hr, hnc, Bool.false_eq_true, ↓reduceIte] at hd ⊢
   rcases hp with hp | hp
   · simp only [hp] at hd ⊢
-    exact (atAwait_end val t plan hp htg hd).mono (fun a ha => ha) Or.inr
+    exact (atAwait_end val t plan htg hd).mono (fun a ha => ha) Or.inr
   · simp only [hp] at hd ⊢
     split
     · rename_i r hro
@@ -81,13 +81,6 @@ theorem stepTask_loop_end (val : Nat) (t : Task) (plan : Plan) (acc : Bool)
           (fun he => Or.inl ⟨r, hro, he⟩)
       · rename_i hnd
         simp only [hnd, Bool.false_eq_true, ↓reduceIte] at hd
-        have hw : (afterLoop t r).1.phase = .waitTrig := by
-          unfold afterLoop at hnd ⊢
-          split
-          · rename_i hg; simp [hg, finish] at hnd
-          · split
-            · rename_i hg hl; simp [hg, hl, finish] at hnd
-            · rfl
         have htg' : ∀ r', (afterLoop t r).1.trig = some (some r') → r'.exc = false := by
           intro r' h'
           apply htg r'
@@ -97,7 +90,7 @@ theorem stepTask_loop_end (val : Nat) (t : Task) (plan : Plan) (acc : Bool)
           · split at h'
             · exact h'
             · exact h'
-        exact (atAwait_end val _ plan hw htg' hd).mono (fun a ha => List.mem_append_right _ ha) Or.inr
+        exact (atAwait_end val _ plan htg' hd).mono (fun a ha => List.mem_append_right _ ha) Or.inr
     · rename_i hro
       simp [hro] at hd
 
